@@ -38,6 +38,8 @@ def gen_layer(rng):
     cid = 0
     for si in range(nsvc):
         sid = rng.choice(SIDS)
+        if rng.random() < 0.08:
+            sid = rng.choice([0x00, 0xFF])  # both ends of the byte range
         sub = rng.choice([None, None, 0x01, 0x02])
         form = rng.random()
         req_ps = []
@@ -80,6 +82,9 @@ def gen_layer(rng):
         if rng.random() < 0.5:
             ps = [u8(0x7F), rng.choice([u8(sid), cc.param(None, dict(k="matchreq", rqpos=0, len=1))]),
                   cc.param(None, dict(k="nrc", dct=cc.std(cc.BUINT, 8), vs=sorted(set(rng.choice([0x10, 0x11, 0x22, 0x31]) for _ in range(2)))))]
+            if rng.random() < 0.4:
+                # a detail byte behind the response code
+                ps.append(cc.param(None, dict(k="value", dop=cc.simple(cc.std(cc.BUINT, 8)), dflt=None)))
             cid += 1
             neg.append(dict(id=cid, name=f"nr{cid}", params=named(ps, f"n{cid}_"), resp=True))
         services.append(dict(id=si + 1, name=f"svc{si + 1}", req=req, pos=pos, neg=neg))
@@ -337,6 +342,14 @@ def main(argv=None):
                         msgs.append((bytes(pdu), None))
                         if rqb:
                             msgs.append((bytes(pdu), rqb))
+                        # the coding object reads its own encoding back with the values which were encoded
+                        d_, e_, _w = cc.guarded(lambda: coll[c["name"]].decode(bytes(pdu)))
+                        ck.count(("own", json.dumps(cc.to_json(L)), c["name"], bytes(pdu)))
+                        if e_ is not None or any(d_.get(k_) != x_ for k_, x_ in v.items()):
+                            ck.violation(f"the encoding {bytes(pdu).hex()} of {c['name']} with {v!r} is read back by the same object as "
+                                         f"{d_ if e_ is None else type(e_).__name__ + ': ' + str(e_)}",
+                                         {"layer": cc.to_json(L), "msg": cc.to_json(bytes(pdu)), "rq": None,
+                                          "object": c["name"], "value": cc.to_json(v)})
             for g in L["gnrs"]:
                 for code in (0x11, 0x21, 0x31, 0x78, 0x10):
                     msgs.append((bytes([0x7F, rng.choice(SIDS), code]), None))
@@ -370,9 +383,11 @@ def main(argv=None):
             mres = None
     else:
         ck.note_broken("model not built")
+    strict_res = {}
     for i, (L, layer, idmap, m, rq) in enumerate(work):
         ck.count((json.dumps(cc.to_json(L)), bytes(m), rq))
         impl = impl_decode(layer, idmap, m, rq)
+        strict_res[i] = impl
         ck.hist("outcome", "ok" if impl[0] == 0 else impl[1])
         ck.hist("n_services", len(L["services"]))
         rep = {"layer": cc.to_json(L), "msg": cc.to_json(bytes(m)), "rq": None if rq is None else cc.to_json(bytes(rq))}
@@ -403,6 +418,35 @@ def main(argv=None):
             ck.violation(f"implementation and model disagree on message {bytes(m).hex()}", rep, found_input=False)
         if i % 499 == 0:
             ck.sample({"msg": bytes(m).hex(), "result": impl, "n_services": len(L["services"])})
+    # the same messages in non-strict mode on a freshly loaded layer (nothing cached by an earlier strict call): what
+    # decodes strictly is attributed to the same services with the same values
+    import odxtools.exceptions as oex
+    fresh = {}
+    nlen = 0
+    for i, (L, layer, idmap, m, rq) in enumerate(work):
+        if strict_res.get(i, [None])[0] != 0:
+            continue
+        oex.strict_mode = False
+        try:
+            if id(L) not in fresh:
+                try:
+                    fresh[id(L)] = load_layer(L)
+                except Exception:  # noqa
+                    fresh[id(L)] = None
+            fl = fresh[id(L)]
+            impl2 = None if fl is None else impl_decode(fl, idmap, m, rq)
+        finally:
+            oex.strict_mode = True
+        if impl2 is None:
+            continue
+        nlen += 1
+        ck.count(("lenient", json.dumps(cc.to_json(L)), bytes(m), rq))
+        if impl2 != strict_res[i]:
+            ck.violation(f"message {bytes(m).hex()} is attributed differently in non-strict mode on a fresh layer: {impl2} "
+                         f"instead of {strict_res[i]}",
+                         {"layer": cc.to_json(L), "msg": cc.to_json(bytes(m)), "rq": None if rq is None else cc.to_json(bytes(rq)),
+                          "mode": "non-strict, layer loaded in non-strict mode and not used before"})
+    ck.coverage["messages_repeated_in_non_strict_mode"] = nlen
     # service groups
     if mres is not None:
         for (L, layer, idmap), g in zip(gl, gres):
@@ -423,6 +467,14 @@ def main(argv=None):
                         ck.violation(f"service {s['name']} with request SID {b0:#x} is filed under {grp}", {"layer": cc.to_json(L)})
                         break
             else:
+                # the public view: asking for every SID (and for "no SID") returns exactly the services filed under it
+                filed = {(k[0] if k else None): v for k, v in r}
+                for q in [None] + list(range(256)):
+                    got, e2, _ = cc.guarded(lambda: [idmap[x.short_name] for x in layer.service_groups[q]])
+                    if e2 is not None or got != filed.get(q, []):
+                        ck.violation(f"service_groups[{q!r}] returns {got if e2 is None else type(e2).__name__}, "
+                                     f"the services filed under it are {filed.get(q, [])}", {"layer": cc.to_json(L)})
+                        break
                 if r != g:
                     ck.violation("implementation and model disagree on the service groups",
                                  {"layer": cc.to_json(L), "impl": r, "model": g, "broken": "correspondence service_groups"},
